@@ -30,8 +30,20 @@ Definition fmax (a b : float) : float := if PrimFloat.ltb a b then b else a.
 Definition thr_f (a b rel abs : float) : float :=
   fmax (PrimFloat.mul (fmax (PrimFloat.abs a) (PrimFloat.abs b)) rel) abs.
 
-Definition fuzzy_f (a b rel abs : float) : bool :=
+(* as found at the pinned commit: an infinite operand makes the threshold infinite, and inf <= inf holds (F-C03b) *)
+Definition fuzzy_f_pinned (a b rel abs : float) : bool :=
   PrimFloat.leb (PrimFloat.abs (PrimFloat.sub b a)) (thr_f a b rel abs).
+
+(* repaired (2461513): the deviation itself has to be finite *)
+Definition fuzzy_f (a b rel abs : float) : bool :=
+  PrimFloat.leb (PrimFloat.abs (PrimFloat.sub b a)) (thr_f a b rel abs) &&
+  PrimFloat.ltb (PrimFloat.abs (PrimFloat.sub b a)) PrimFloat.infinity.
+
+(* constants for statements in files that do not import PrimFloat *)
+Definition f_zero : float := 0%float.        Definition f_one : float := 1%float.
+Definition f_three_halves : float := 1.5%float.   Definition f_half : float := 0.5%float.
+Definition f_eps : float := 0x1p-52%float.   Definition f_million : float := 1e6%float.
+Definition f_inf : float := PrimFloat.infinity.   Definition f_ninf : float := PrimFloat.neg_infinity.
 
 (* integer kernel with fixed-width wrap-around: what numpy computes when FuzzyEquality is applied
    directly to two integer arrays of the same dtype (second - first, abs and maximum in that dtype;
